@@ -29,12 +29,7 @@ Proof.
 Qed.
 
 Lemma lookup_In {A} k (s : list (string * A)) v : lookup k s = Some v -> In (k, v) s.
-Proof.
-  induction s as [|[y w] s IH]; cbn; [discriminate|].
-  destruct (String.eqb k y) eqn:E.
-  - intro H. inversion H; subst. apply String.eqb_eq in E. subst. left. reflexivity.
-  - intro H. right. apply IH. exact H.
-Qed.
+Proof. apply lookup_Some_in. Qed.
 
 Lemma In_remove_key {A} x (s : list (string * A)) kv : In kv (remove_key x s) -> In kv s.
 Proof.
@@ -378,14 +373,6 @@ End Mono.
 
 (* ------------------------------------------------------------------ *)
 Definition over_G (G : list string) (d : expr) : Prop := forall x, In x (fv d) -> In x G.
-
-Lemma mem_In x l : mem x l = true <-> In x l.
-Proof.
-  induction l as [|y l IH]; cbn; [split; [discriminate|tauto]|].
-  destruct (String.eqb x y) eqn:E.
-  - apply String.eqb_eq in E. subst. split; auto.
-  - rewrite IH. split; [auto|]. intros [H|H]; [|exact H]. subst. rewrite String.eqb_refl in E. discriminate.
-Qed.
 
 Lemma lookup_None_keys {A} x (s : list (string * A)) : lookup x s = None -> mem x (keys s) = false.
 Proof.
